@@ -188,14 +188,21 @@ def rule_brier_formula(ck):
     f = P.func(RK)
     ex = Expander(P, f)
     rets = [r for r in returns(f) if r.value is not None]
-    if len(rets) != 1 or not isinstance(rets[0].value, ast.Name):
+    if len(rets) != 1:
         raise Inconclusive('brier kernel return shape')
     fo, ob = f.positional_params[0], f.positional_params[1]
-    var = rets[0].value.id
     N = sym.Normalizer()
-    assigns = [a for a in find_assignments(f, var)]
-    plain = [a for a in assigns if isinstance(a, ast.Assign)]
-    augs = [a for a in assigns if isinstance(a, ast.AugAssign)]
+    if isinstance(rets[0].value, ast.Name):
+        var = rets[0].value.id
+        assigns = [a for a in find_assignments(f, var)]
+        plain = [a for a in assigns if isinstance(a, ast.Assign)]
+        augs = [a for a in assigns if isinstance(a, ast.AugAssign)]
+    else:
+        # the score is returned as an expression: the same thing as `score = <expr>; return score`
+        var = '<returned expression>'
+        syn = ast.Assign(targets=[ast.Name(id='__score__', ctx=ast.Store())], value=rets[0].value, lineno=rets[0].lineno, col_offset=0)
+        syn._parent = getattr(rets[0], '_parent', None)
+        plain, augs = [syn], []
     o = ck.ob('C16-D3.brier.sum', f, plain[0] if plain else var, plain[0] if plain else f.node)
     if len(plain) != 1:
         o.unknown('%d plain assignments of the score' % len(plain))
